@@ -43,6 +43,10 @@ type Root struct {
 	// elemWritten: some element (or a field of one) of a struct-element slice was stored to;
 	// element fields then no longer have a canonical input value
 	elemWritten bool
+	// extVer counts hand-overs of (a slice of) this buffer to code the analysis does not follow (an
+	// interface method such as Read, a function outside the module): its bytes are then whatever
+	// that code left there, not what the analysed code wrote or the zero value
+	extVer int
 }
 
 // ASlice is a view [off, off+ln) of a root.
